@@ -177,6 +177,11 @@ impl<E: Pairing> MultilinearPC<E> {
         value: E::ScalarField,
         proof: &Proof<E>,
     ) -> bool {
+        // The commitment, the point and the proof must all be for `vk.nv` variables: surplus
+        // coordinates of the point would simply be ignored below.
+        if commitment.nv != vk.nv || point.len() != vk.nv || proof.proofs.len() != vk.nv {
+            return false;
+        }
         let left = E::pairing(commitment.g_product.into_group() - &vk.g.mul(value), vk.h);
 
         let g_mul = vk.g.into_group().batch_mul(point);
